@@ -66,10 +66,10 @@ def schedule(s0: int, s1: int, s2: int, s3: int, s4: int, s5: int, n: int, a0: i
     return ok, signed > 0, "steps=%r" % (steps,)
 
 
-RS = ["", "relay", "a&b=c", "https://sp.example.org/return?next=%2Fhome", "100%"]
+RS = ["", "relay", "a&b=c", "https://sp.example.org/return?next=%2Fhome", "100%", "back to c++ start"]
 MUT = ["none", "change message", "change RelayState", "remove RelayState", "add RelayState", "SigAlg -> other supported", "SigAlg -> unsupported (md5)",
        "SigAlg -> garbage", "remove SigAlg", "swap message and RelayState", "Signature of another entity for the same query", "truncate Signature",
-       "response instead of request key", "RelayState replaced by its percent-decoded form"]
+       "response instead of request key", "RelayState replaced by its percent-decoded form", "'+' in RelayState -> blank", "blank in RelayState -> '+'", "'+' in the message parameter -> blank"]
 
 
 def url_binding(ent: int, alg: int, rs: int, mut: int, vkey: int, response: bool):
@@ -130,6 +130,21 @@ def url_binding(ent: int, alg: int, rs: int, mut: int, vkey: int, response: bool
         from urllib.parse import unquote
         if "RelayState" in q and unquote(q["RelayState"]) != q["RelayState"]:
             q["RelayState"] = unquote(q["RelayState"])
+        else:
+            applicable = False
+    elif mut == 14:
+        if "+" in q.get("RelayState", ""):
+            q["RelayState"] = q["RelayState"].replace("+", " ")
+        else:
+            applicable = False
+    elif mut == 15:
+        if " " in q.get("RelayState", ""):
+            q["RelayState"] = q["RelayState"].replace(" ", "+")
+        else:
+            applicable = False
+    elif mut == 16:
+        if "+" in q[typ]:
+            q[typ] = q[typ].replace("+", " ")
         else:
             applicable = False
     if not applicable:
@@ -204,8 +219,10 @@ def entities(first: int, a1: int, a2: int, rs: int, third: bool, received: int =
 def _rs_for(m, e):
     if m == 13:
         return 3                    # needs a RelayState that contains a percent escape
+    if m in (14, 15):
+        return 5                    # ... one with '+' and blanks
     if m == 0:
-        return 3 + (e % 2) if e else 1     # liveness also for RelayStates with '%'
+        return 3 + e if e else 1           # liveness also for RelayStates with '%', '+' and blanks
     if m in (2, 3, 9):
         return 1 + (e % 2)          # these mutations need a RelayState to act on
     if m == 4:
@@ -233,7 +250,7 @@ CONDITIONS = [
                      "thorough": [{"mut": m, "alg": a, "response": (m + a) % 2 == 0} for m in range(len(MUT)) for a in range(5)]},
          timeout={"quick": 600, "thorough": 1200}, path_timeout=60,
          functions=["pack.http_redirect_message (signed branch)", "sigver.verify_redirect_signature", "sigver.RSACrypto.get_signer", "sigver.RSASigner.sign/verify"],
-         bounds="3 signing entities x 5 RSA-SHA algorithms x RelayState {absent, plain, with '&' and '=', with a percent escape, with a bare '%'} x 14 single mutations of the signed query x verification under each of the 3 keys x request/response"),
+         bounds="3 signing entities x 5 RSA-SHA algorithms x RelayState {absent, plain, with '&' and '=', with a percent escape, with a bare '%', with '+' and blanks} x 17 single mutations of the signed query x verification under each of the 3 keys x request/response"),
 ]
 
 CONDITIONS.append(
